@@ -178,6 +178,13 @@ def _field_op(name, fidx, setter):
         def gen(self, g):
             h = g.any_node()
             v = g.text() if g.rng.random() < 0.85 else None
+            if fidx == F_CONTENT and g.rng.random() < 0.6:
+                from . import rulesview as RV
+                tv = RV.typed_values(g.snap.name(h))
+                if tv:
+                    v = g.rng.choice(tv)
+            if fidx == F_CONTENT and g.snap.name(h) == "references":
+                v = g.rng.choice(["id0", "id1", "id2", " id0 ", "id1\n", "nosuch", None, "ds1", ""])
             if fidx == F_PREFIX:
                 v = g.prefix() if g.rng.random() < 0.8 else None
             if fidx == F_NAME:
@@ -348,11 +355,20 @@ class AddChild:
         for _ in range(6):
             c = g.rng.choice(unl)
             p = g.pick_parent(own)
+            aff = g.cfg.get("plant_affinity")
+            if aff and s.name(c) in aff and g.rng.random() < 0.7:
+                # plant a name where the parent's rule lists it
+                cands = [h for h in own if s.name(h) in aff[s.name(c)] and attachable(s, h, c)]
+                if cands:
+                    p = g.rng.choice(cands)
             if attachable(s, p, c):
                 n = len(s.cells[p][CH])
                 idx = None if g.rng.random() < 0.5 else g.rng.randrange(n + 1)
-                return {"k": "add_child", "s": g.sess, "p": g.sel("own", p),
-                        "c": g.sel("unl", c), "i": idx}
+                op = {"k": "add_child", "s": g.sess, "p": g.sel("own", p), "c": g.sel("unl", c), "i": idx}
+                if idx is not None and g.rng.random() < g.cfg.get("p_oob_index", 0.0):
+                    op["i"] = g.rng.randrange(-2 * n - 3, 2 * n + 4)
+                    op["raw"] = True
+                return op
         return None
 
     def resolve(self, V, op):
@@ -361,7 +377,7 @@ class AddChild:
         if not struct_ok(V.s, p, c) or not attachable(V.s, p, c):
             raise Skip("not attachable")
         i = op["i"]
-        if i is not None:
+        if i is not None and not op.get("raw"):
             i = i % (len(V.s.cells[p][CH]) + 1)
         return {"p": p, "c": c, "i": i}
 
@@ -378,6 +394,8 @@ class AddChild:
         if i is None:
             ch.append(c)
         else:
+            # the ordered-list model: Python's own list.insert, for any integer
+            e.notes["oob"] = i < 0 or i > len(ch)
             ch.insert(i, c)
         e.want(p, CH, tuple(ch))
         e.want(c, PA, p)
@@ -1078,6 +1096,91 @@ class Delete:
             e.want(d, RG, False)
         e.notes["partial"] = any(not pre.cells[d][RG] for d in tgt[1:])
         return e
+
+
+@kind("raw_append")
+class RawAppend:
+    """p.children.append(c): the child list reached through the public property,
+    as Node.copy itself does.  The parent link of c is not touched."""
+
+    def gen(self, g):
+        s = g.snap
+        unl, own = g.V.cands("unl", g.sess), g.V.cands("own", g.sess)
+        if len(own) < 2 or not unl:
+            return None
+        for _ in range(6):
+            c, p = g.rng.choice(unl), g.pick_parent(own)
+            if attachable(s, p, c):
+                return {"k": "raw_append", "s": g.sess, "p": g.sel("own", p), "c": g.sel("unl", c)}
+        return None
+
+    def resolve(self, V, op):
+        p = V.pick("own", op["s"], op["p"])
+        c = V.pick("unl", op["s"], op["c"])
+        if not struct_ok(V.s, p, c) or not attachable(V.s, p, c):
+            raise Skip("not attachable")
+        return {"p": p, "c": c}
+
+    def run(self, W, R, op):
+        W.node(R["p"]).children.append(W.node(R["c"]))
+
+    def spec(self, pre, R, op, out):
+        e = Exp()
+        e.want(R["p"], CH, pre.cells[R["p"]][CH] + (R["c"],))
+        return e
+
+
+@kind("forget")
+class Forget:
+    """The client drops every reference of its own to one document and keeps only
+    the ids; after a garbage collection each node must still be retrievable by
+    its id, because nothing deleted it.  Afterwards the client holds the nodes again."""
+
+    def gen(self, g):
+        s = g.snap
+        roots = [h for h in g.V.cands("unl", g.sess) if len(s.subtree(h)) <= 80]
+        if not roots:
+            return None
+        return {"k": "forget", "s": g.sess, "n": g.sel("unl", g.rng.choice(roots))}
+
+    def resolve(self, V, op):
+        s = V.s
+        n = V.pick("unl", op["s"], op["n"])
+        if not clean_subtree(s, n):
+            raise Skip("struct")
+        sub = s.subtree(n)
+        ids = [s.cells[h][FI][F_ID] for h in sub]
+        if any(not s.cells[h][RG] for h in sub) or len(set(ids)) != len(ids):
+            raise Skip("not all registered")
+        for h in sub:
+            pa = s.cells[h][PA]
+            if pa is not None and pa not in sub:
+                raise Skip("stale link to a node outside")     # would keep the other tree's reference alive only
+        return {"n": n, "sub": sub}
+
+    def run(self, W, R, op):
+        import gc
+        import weakref
+        sub = R["sub"]
+        ids = [W.nodes[h].id for h in sub]
+        wrefs = [weakref.ref(W.nodes[h]) for h in sub]
+        for h in sub:
+            del W.h_of[id(W.nodes[h])]
+            W.nodes[h] = None
+        gc.collect()
+        lost = []
+        for h, i, wr in zip(sub, ids, wrefs):
+            obj = Node.get_node_instance(i)
+            if obj is None or obj is not wr():
+                lost.append(h)
+                obj = wr()
+            if obj is not None:
+                W.nodes[h] = obj
+                W.h_of[id(obj)] = h
+        return {"lost": lost, "size": len(sub)}
+
+    def spec(self, pre, R, op, out):
+        return Exp()
 
 
 @kind("clk", mutating=False)
